@@ -735,7 +735,10 @@ def plan_c06(tier, seed):
         us.append(u)
     for k in (0, nv // 2, nv - 1):
         us[k].harnesses.append(h_c06_ctl(us[k].meta["layout"]))
-    return Plan(us, title="raw round trip, constants, layout", chunk=120,
+    # the same declarations (every 4th, all forms of default among them) inside a #![no_std] crate
+    nostd = [Unit(f"n{i:05d}", u.meta["layout"].decl(), [], {"layout": u.meta["layout"], "sig": u.meta["sig"], "tag": u.meta["tag"] + " [no_std crate]", "valid": True, "role": "no_std-crate"})
+             for i, u in enumerate(us[:nv]) if i % 4 == 0 or u.meta["layout"].debug or u.meta["layout"].via_macro]
+    return Plan(us, title="raw round trip, constants, layout", chunk=120, nostd_units=nostd,
                 bounds={"inputs": "all 2^N raw values per base", "bases": "5 native + %d arbitrary-int widths" % (len(QUICK_ARB) if tier == "quick" else len(ALL_ARB)),
                         "default forms": "none / hex literal all-ones / named constant / decimal literal, `=` and legacy `:`; with and without fields",
                         "ground obligations": "size_of/align_of, Copy, ZERO, DEFAULT, Default::default, new() are evaluated, not quantified"},
